@@ -374,6 +374,7 @@ def check(run):
     run.cov["counted_fields_in_coq"] = c_ok
     n_ok += c_ok
     n_ok += sleb_part(run, quick)
+    n_ok += uleb_part(run, quick)
     run.cov["traces_validated_against_impl"] = n_ok
     run.cov["trusted_base"] += ["harness/c16.py definition generator, C-layout calculator (validated against gcc -m64 / -m32 -malign-double per run), struct module"]
     run.assumptions += ["bit-fields are generated full-width and left out of the gcc comparison (C packs bit-fields into the storage units of neighbouring members; the definition language gives each group its own unit)",
@@ -709,6 +710,49 @@ def sleb_part(run, quick):
             run.violation("model-impl-correspondence|sleb128", "write_sleb128 / read_sleb128 differ from the Gallina codec (shortest two's-complement groups of 7 bits): %s" % x[k][:200],
                           {"theorem_or_correspondence": "Amoco.C16.Sleb.check_sleb / C16_sleb128_roundtrip / C16_sleb128_is_shortest", "case(value, written, tail, read back)": x[k][:800]}, found_input=True)
     run.cov["sleb128_cases_in_coq"] = ok
+    return ok
+
+
+def uleb_part(run, quick):
+    """write_uleb128 / read_uleb128 against the Gallina codec Amoco.C16.Uleb (round trip, shortest encoding and no redundant
+    final group proved there): values around every septet boundary 2^(7k) (k = 1..9), small values and random ones, with tails"""
+    from amoco.system.structs.utils import write_uleb128, read_uleb128
+    rng = random.Random(run.seed * 277 + 11)
+    vals = set(range(0, 300))
+    for k in range(1, 10):
+        for base in (1 << (7 * k - 1), 1 << (7 * k)):
+            for d in (-2, -1, 0, 1, 2):
+                vals.add(base + d)
+    for _ in range(200 if quick else 4000):
+        vals.add(rng.getrandbits(rng.randrange(1, 64)))
+    rows = []
+    for v in sorted(vals):
+        try:
+            bs = bytes(write_uleb128(v))
+            tail = bytes(rng.getrandbits(8) for _ in range(rng.choice([0, 1, 3])))
+            rv, rc = read_uleb128(bs + tail)
+        except Exception as x:
+            run.violation("uleb128-raised|" + type(x).__name__, "write_uleb128 / read_uleb128 raised %r on %d" % (x, v), {"value": v, "error": repr(x)[:200]})
+            continue
+        run.count(("uleb", v), nontrivial=True)
+        rows.append("(%d, %s, %s, (%s, %d))" % (v, "[" + "; ".join(str(b) for b in bs) + "]", "[" + "; ".join(str(b) for b in tail) + "]",
+                                               "(%d)" % rv if rv < 0 else rv, rc))
+    hdr = "From Coq Require Import ZArith List.\nImport ListNotations.\nRequire Import Amoco.C16.Layout Amoco.C16.Uleb.\nOpen Scope Z_scope.\n"
+    sh = [rows[i:i + 400] for i in range(0, len(rows), 400)]
+    texts = [("uleb_%03d" % i, hdr + "Definition cases : list uleb_case := [\n%s\n].\nEval vm_compute in (bad_from check_uleb 0 cases).\n" % ";\n".join(x)) for i, x in enumerate(sh)]
+    res = common.coq_eval_many(run.work / "uleb", texts)
+    ok = 0
+    for i, x in enumerate(sh):
+        rc, out = res["uleb_%03d" % i]
+        lists = common.parse_nat_list(out)
+        if rc != 0 or len(lists) != 1:
+            run.violation("model-eval|uleb128", "ULEB128 model evaluation failed", {"theorem_or_correspondence": "Amoco.C16.Uleb.check_uleb shard %d" % i, "output": out[-800:]}, found_input=False)
+            continue
+        ok += len(x)
+        for k in lists[0][:3]:
+            run.violation("model-impl-correspondence|uleb128", "write_uleb128 / read_uleb128 differ from the Gallina codec (shortest groups of 7 bits, low group first): %s" % x[k][:200],
+                          {"theorem_or_correspondence": "Amoco.C16.Uleb.check_uleb / C16_uleb128_written_roundtrip / C16_uleb128_is_shortest / C16_uleb128_no_redundant_group", "case(value, written, tail, read back)": x[k][:800]}, found_input=True)
+    run.cov["uleb128_cases_in_coq"] = ok
     return ok
 
 
